@@ -60,6 +60,7 @@ def run(res, a):
     ok, txt, cmd, exe = oslib.build_harness("t_osfree", a.pid)
     if not ok:
         res.violation("harness-build", "harness/t_osfree.c (or shim.c) no longer compiles against the current tree: " + txt[-1500:]); return
+    oslib.td_faults(res, exe)
     # (1) OS-level round trips
     ok, rc, out, err = oslib.run_harness(exe, ["R", a.seed, "1" if thorough else "0"])
     if not ok:
